@@ -81,6 +81,9 @@ func getDescription(raw interface{}) string {
 		desc = getMapValueString(node, "Description.Value")
 	}
 	if desc != "" {
+		// A triple quote inside the text would end the block string early;
+		// the lexer reads \""" as a literal triple quote.
+		desc = strings.Replace(desc, `"""`, `\"""`, -1)
 		sep := ""
 		if strings.ContainsRune(desc, '\n') {
 			sep = "\n"
